@@ -150,10 +150,34 @@ class Property(cssutils.util.Base):
                 )
 
             if wellformed:
-                self.wellformed = True
-                self.name = nametokens
-                self.propertyValue = valuetokens
-                self.priority = prioritytokens
+                # name and priority are set first: should one of the parts
+                # be rejected they are put back, the value is only changed
+                # if everything else has been accepted
+                old = (
+                    self.wellformed,
+                    self._literalname,
+                    self._name,
+                    self._literalpriority,
+                    self._priority,
+                    self.seqs[0],
+                    self.seqs[2],
+                )
+                try:
+                    self.wellformed = True
+                    self.name = nametokens
+                    self.priority = prioritytokens
+                    self.propertyValue = valuetokens
+                except Exception:
+                    (
+                        self.wellformed,
+                        self._literalname,
+                        self._name,
+                        self._literalpriority,
+                        self._priority,
+                        self.seqs[0],
+                        self.seqs[2],
+                    ) = old
+                    raise
 
                 # also invalid values are set!
 
